@@ -19,6 +19,14 @@ def make_wl(rng, k):
         spec["gene_naming"] = k % 3
         spec["drop_chr_annotation"] = 1 if k % 3 == 1 else 0
         opts["annotated"] = True if k % 5 else opts.get("annotated", True)
+    if k is not None and k % 4 == 3:
+        # an unannotated transcript that overlaps an annotated gene AND its antisense gene, annotation ids that sort after
+        # 'novel_gene_...': the gene joiner has to merge a novel gene with an annotated one (default ONT settings)
+        spec.update(antisense=2, novel_gene_overlap=2, gene_naming=1 + (k // 4) % 2, polya=1, novel_cov=6,
+                    genes_per_chr=max(3, spec.get("genes_per_chr", 3)), drop_chr_annotation=0)
+        opts.update(annotated=True, data_type="nanopore")
+        opts.pop("model_strategy", None)
+        opts.pop("extra", None)
     opts.pop("threads_hint", None)
     return spec, opts
 
